@@ -214,8 +214,36 @@ def selftest():
     assert M.tokens_text(M.pred_tokens(pr2)) == "( a == 1 or b == 1 ) and c == 1"
 
 
+def known_ids():
+    for k in runner.known_for("C02"):
+        if k.get("id") == "K1":
+            return set(k.get("identifiers", []))
+    return set()
+
+
+def known_filter(case, viol):
+    if isinstance(case, dict) and "prog" in case and set(M.all_identifiers(case["prog"])) & known_ids():
+        return "K1"
+    return None
+
+
+def k1_probe():
+    n = "choose_experiment_variant"
+    body = M.if_([(M.cmp_(M.ident(n), "==", M.lit_int("1")), M.ret([(M.lit_str("A"), "1")]))], M.ret([(M.lit_str("C"), "1")]))
+    return _case(M.program("exp", body), [{n: 1}, {n: 2}])
+
+
 def run(ctx, rec):
     if ctx.shard == 0:
+        probe = k1_probe()
+        v = judge(probe)
+        if v["viol"]:
+            if known_filter(probe, v["viol"]):
+                rec.known_finding("K1", "a field named choose_experiment_variant is shadowed by the generated helper and the "
+                                  "wrong branch is taken (still failing)")
+            else:
+                rec.violation("k1-probe", probe, v["viol"])
+                return
         runner.direct_run(ctx, rec, "catalogue", catalogue(), judge)
         if rec.violations:
             return
